@@ -49,6 +49,8 @@ pub enum Q {
     Cond(usize, bool),
     Exists(usize),
     CondModel(usize),
+    /// smooth to a width below the number of variables (the full width is Fixed(11))
+    Smooth(usize),
 }
 
 const FIXED: [&str; 13] = [
@@ -67,6 +69,9 @@ pub fn bdd_queries(n: usize) -> Vec<(String, Q)> {
     }
     for m in 0..3 {
         v.push((format!("condition_model#{}", m), Q::CondModel(m)));
+    }
+    for k in 1..n {
+        v.push((format!("smooth(width {})", k), Q::Smooth(k)));
     }
     v
 }
@@ -140,6 +145,7 @@ fn bdd_query<'a>(b: &'a AllBuilder<'a>, p: BddPtr<'a>, q: &Q, fx: &Fix) -> Resul
             let (v, m) = p.bb(&vars[..1], n, &fx.eu);
             format!("{:?}/{:?} {:?}", v.0.to_bits(), v.1.to_bits(), m)
         }
+        Q::Smooth(k) => digest_bdd(b.smooth(p, *k), n),
         Q::Cond(x, val) => digest_bdd(b.condition(p, VarLabel::new(*x as u64), *val), n),
         Q::Exists(x) => digest_bdd(b.exists(p, VarLabel::new(*x as u64)), n),
         Q::CondModel(m) => {
